@@ -26,6 +26,14 @@ PLOTS = ('chi/plots',)
 MODULES = {'np', 'numpy', 'pd', 'pandas', 'myokit', 'pints', 'xr', 'xarray',
            'go', 'copy', 'scipy', 'stats', 'math', 'warnings', 'os', 'sbml',
            'colors', 'plotly', 'az', 'tqdm', 'special', 'truncnorm', 'norm'}
+BUILTINS = {'len', 'range', 'int', 'float', 'str', 'list', 'dict', 'set',
+            'tuple', 'enumerate', 'zip', 'sorted', 'isinstance', 'print',
+            'super', 'min', 'max', 'sum', 'abs', 'any', 'all', 'bool',
+            'type', 'getattr', 'hasattr', 'iter', 'next', 'map', 'filter',
+            'reversed', 'round', 'repr', 'format', 'callable', 'id',
+            'ValueError', 'TypeError', 'KeyError', 'IndexError',
+            'NotImplementedError', 'AttributeError', 'RuntimeError',
+            'Warning', 'Exception', 'tqdm', 'softmax', 'logsumexp'}
 # fields that hold myokit / pints / plotly objects, never chi objects
 EXTERNAL_FIELDS = {'_simulator', '_model', '_vanilla_model', '_log_prior',
                    '_fig', '_figs', '_optimiser', '_sampler',
@@ -78,6 +86,9 @@ class CallGraph:
                 elif ('', f.id) in self.defs and \
                         self.defs[('', f.id)][0] == rel:
                     out.add(('', f.id))
+                elif f.id not in BUILTINS:
+                    # calling a local object: its __call__
+                    out |= self._object_call(f, cls, fn, rel)
                 continue
             if not isinstance(f, ast.Attribute):
                 continue
@@ -93,7 +104,11 @@ class CallGraph:
                 out |= self._resolve_all(m, '__init__')
                 continue
             if isinstance(recv, ast.Name) and recv.id == 'self' and cls:
-                out |= self._resolve_all(cls, m)
+                got = self._resolve_all(cls, m)
+                if not got:
+                    # calling an object stored in a field: its __call__
+                    got = self._object_call(f, cls, fn, rel)
+                out |= got
                 continue
             if isinstance(recv, ast.Name) and recv.id in ('cls',) and cls:
                 out |= self._resolve_all(cls, m)
@@ -131,6 +146,25 @@ class CallGraph:
             for key in self.by_name.get(m, ()):
                 if key[0] and _family(self.defs[key][0]) == fam:
                     out.add(key)
+        return out
+
+    def _object_call(self, expr, cls, fn, rel):
+        out = set()
+        t = self.T.type_of(expr, cls, fn) if cls else None
+        if t is not None:
+            tt = t[1] if t[0] == 'list' else t
+            if tt is not None:
+                for K in self.T.candidates(tt):
+                    d, fn2 = self.repo.resolve(K, '__call__')
+                    if fn2 is not None:
+                        out.add((d, '__call__'))
+                return out
+        if isinstance(expr, ast.Attribute) and expr.attr in EXTERNAL_FIELDS:
+            return out
+        fam = _family(rel)
+        for key in self.by_name.get('__call__', ()):
+            if key[0] and _family(self.defs[key][0]) == fam:
+                out.add(key)
         return out
 
     def reachable(self, entries):
